@@ -79,3 +79,11 @@ func oracleC01(c SnapCase) (o report.Outcome) {
 }
 
 func TestC01(t *testing.T) { report.Run(t, specC01, genC01, oracleC01) }
+
+var specC01Far = report.Spec{Property: "C01", Check: "C01Far",
+	Rule:        "pinched, nested and annulus shapes and (half of the cases) collapse-prone templates on NetherlandsRDNewQuad, WebMercatorQuad, EuropeanETRS89_LAEAQuad, UPSArcticWGS84Quad and NZTM2000Quad at their four deepest addressable tile matrices, placed anywhere incl. the strip behind the last addressable pixel; oracle, scope and non-trivial rule of C01.",
+	Assumptions: specC01.Assumptions}
+
+func TestC01Far(t *testing.T) {
+	report.Run(t, specC01Far, func(t *rapid.T) SnapCase { return drawFarCase(t, true) }, oracleC01)
+}
